@@ -65,7 +65,7 @@ def _calls(name, arglists):
 UNIVERSE = {
     "none": [],
     "bool": _calls("__call__", [[True], [False], [1], [0], [None], ["True"], [E], [NIL]]),
-    "int": _calls("__call__", [[0], [1], [-1], [2 ** 63], [10 ** 400], [True], [1.0], ["1"], [None], [E], [NIL]])
+    "int": _calls("__call__", [[0], [1], [-1], [2 ** 63], [10 ** 400], [10 ** 5000], [True], [1.0], ["1"], [None], [E], [NIL]])
     + _calls("min", [[0], [1], [2], [-1], [2 ** 70], [-(2 ** 1030)], [True], [0.5], ["0"], [None], [E]])
     + _calls("max", [[0], [1], [2], [-1], [-2 ** 70], [False], [0.5], ["0"], [None], [NIL]]),
     "float": _calls("__call__", [[0.5], [0.54], [1.0], [-0.0], [float("inf")], [float("nan")], [1], [True],
@@ -78,7 +78,7 @@ UNIVERSE = {
     + _calls("alphabet", [["ab"], ["a"], [""], ["abc "], [1], [None], [["a", "b"]], [b"ab"]])
     + _calls("contains", [["a"], ["ab"], ["c"], [""], [1], [None], [b"a"], [E]])
     + _calls("regex", [["a"], ["^ab$"], ["c+"], [""], ["("], ["[a"], [1], [None], [b"a"], [E],
-                       [Zoo("re_compiled_icase")], ["x{2}"]]),
+                       [Zoo("re_compiled_icase")], ["x{2}"], ["a{99999999999999999999}"], ["(" * 500 + "a" + ")" * 500]]),
     "list": _calls("__call__", [[[]], [[SP_INT1]], [[SP_INT1, SP_STR]], [[SP_INT, E]], [[E, SP_INT]],
                                 [[E, SP_INT, E]], [[E]], [[E, E]], [[SP_INT, E, SP_INT]],
                                 [[SP_ANYBARE, SP_INT1]], [[SP_DICT0]], [[SP_BRACES, E]], [[SP_MARKER_FIRST]], [SP_MARKER_FIRST], [[SP_INT1, SP_ANYBARE]], [[SP_INT, SP_STR]], [[SP_ANYBARE, E]],
@@ -103,6 +103,28 @@ UNIVERSE = {
 }
 FAMILY = {"__call__": "value", "min": "min", "max": "max", "precision": "precision", "len": "len",
           "alphabet": "alphabet", "contains": "substr", "regex": "pattern"}
+
+
+def classify(case, v):
+    """Known finding: CPython refuses to convert an int of more than 4300 digits to text (sys.set_int_max_str_digits);
+    every DeclarationError message prints the receiver, so refusing a call on a schema that holds such an int raises that
+    ValueError instead.  Recognised by the interpreter's own message and a >4300-digit int among the arguments, nothing
+    broader."""
+    if v.key == "wrong-exception:ValueError" and "Exceeds the limit (4300 digits)" in v.detail:
+        def huge(a):
+            if isinstance(a, int) and not isinstance(a, bool):
+                return abs(a) >= 10 ** 4300
+            if isinstance(a, (list, tuple)):
+                return any(huge(x) for x in a)
+            return False
+        if any(huge(a) for call in case["calls"] for a in call[1:]):
+            return "int-beyond-str-conversion-limit"
+    return v.key
+
+
+KNOWN = {
+    "int-beyond-str-conversion-limit": {"type": "int", "calls": [["__call__", 10 ** 5000], ["__call__", 1]]},
+}
 
 
 def exhaustive(tier):
@@ -203,18 +225,18 @@ def check(case, ctx):
             out = None
         except Exception as e:  # noqa
             raise Violation(f"wrong-exception:{type(e).__name__}",
-                            f"{before_r}.{name}{tuple(args)!r} raised {e!r} (not DeclarationError)")
+                            f"{before_r}.{name}{_r(tuple(args))} raised {e!r} (not DeclarationError)")
         if canon.canon(s) != before_c or _r(s) != before_r:
-            raise Violation("receiver-changed", f"{before_r}.{name}{tuple(args)!r} changed its receiver "
+            raise Violation("receiver-changed", f"{before_r}.{name}{_r(tuple(args))} changed its receiver "
                                                 f"to {s!r}")
         if out is None:
             ctx.label("call:rejected")
             continue
         if not isinstance(out, Schema):
-            raise Violation("not-a-schema", f"{before_r}.{name}{tuple(args)!r} returned {out!r}")
+            raise Violation("not-a-schema", f"{before_r}.{name}{_r(tuple(args))} returned {out!r}")
         if fam in declared:
             raise Violation("redeclaration-accepted",
-                            f"{before_r}.{name}{tuple(args)!r} succeeded although {fam} was declared")
+                            f"{before_r}.{name}{_r(tuple(args))} succeeded although {fam} was declared")
         declared.add(fam)
         n_ok += 1
         ctx.label("call:accepted")
